@@ -80,9 +80,24 @@ def check_injection(ctx, func, cls, calls, lc, rule='R1'):
     return c
 
 
+def check_grace_period(ctx):
+    """R2: on the server side of the remote terminate the graceful window is the time the caller granted (`timeout`, which is how the control thread
+    passes it on) - never `remote_timeout`, which still has its default there"""
+    RW = ctx.prog.cls('RemoteWorker')
+    term = RW.methods['terminate']
+    reg = split_regions(term)
+    if not reg or 'remote_timeout' not in term.all_params():
+        return
+    uses = [x for st in reg['server'] for x in ast.walk(st) if isinstance(x, ast.Name) and x.id == 'remote_timeout' and isinstance(x.ctx, ast.Load)]
+    ctx.check('R2', 'RemoteWorker.terminate[server]: the target is given the time the caller granted to unwind (`timeout`), not the request budget', not uses, 'RemoteWorker.terminate',
+              'grace-period-from-remote-timeout', 'the server side of terminate() waits for `remote_timeout` (default 1 s there) instead of the granted `timeout`: a target whose unwinding takes '
+              'longer is force-killed in the middle of its finally/with blocks and the parent sees error None instead of WorkerTerminatedError', where=loc(term, uses[0]) if uses else loc(term, term.node))
+
+
 def run(ctx):
     from ..frame import check_frame_attrs
     check_frame_attrs(ctx, 'C03', 'R1')
+    check_grace_period(ctx)
     P = ctx.prog
     classes = worker_classes(P, internal=False)
     utils = P.module('utils')
